@@ -113,17 +113,22 @@ var vchSqliteOpen func(dir string) (kvdb.Backend, error)
 
 // vchStopDB wraps the real kvdb backend of ONE party's channel DB.  It counts
 // the read-write transactions that commit and, when armed with limit = n, lets
-// exactly n more of them commit: every later one fails with errVchStop without
-// touching the database (the process "died" right after the n-th commit).
-// Reads go straight through.
+// exactly n more of them commit: every later one fails with errVchStop and
+// leaves the database untouched (the process "died" right after the n-th
+// commit) - either refused before it starts or (rollback mode: the node dies
+// while the transaction is open) its closure runs against the real backend and
+// the backend has to ROLL the whole transaction BACK.  Reads go straight through.
 type vchStopDB struct {
 	kvdb.Backend
 
 	mu        sync.Mutex
-	committed int // Update transactions committed since begin()/arm()
-	refused   int // Update transactions refused since arm()
-	limit     int // -1: unlimited
-	rawTx     int // BeginReadWriteTx calls (not expected from the state machine)
+	count     int  // Update transactions committed since begin()
+	committed int  // Update transactions committed since arm()
+	refused   int  // Update transactions refused / rolled back since arm()
+	rolled    int  // ... of which were executed and rolled back
+	limit     int  // -1: unlimited
+	rollback  bool // refuse by executing + rolling back
+	rawTx     int  // BeginReadWriteTx calls (not expected from the state machine)
 }
 
 func (d *vchStopDB) Update(f func(tx walletdb.ReadWriteTx) error,
@@ -133,11 +138,30 @@ func (d *vchStopDB) Update(f func(tx walletdb.ReadWriteTx) error,
 	defer d.mu.Unlock()
 	if d.limit >= 0 && d.committed >= d.limit {
 		d.refused++
-		return errVchStop
+		if !d.rollback {
+			return errVchStop
+		}
+		d.rolled++
+		err := d.Backend.Update(func(tx walletdb.ReadWriteTx) error {
+			if err := f(tx); err != nil {
+				return err
+			}
+			return errVchStop
+		}, reset)
+		if err == nil {
+			panic("vch: a transaction that returned an error committed")
+		}
+		if !errors.Is(err, errVchStop) &&
+			!strings.Contains(err.Error(), errVchStop.Error()) {
+
+			return fmt.Errorf("%w (closure: %v)", errVchStop, err)
+		}
+		return err
 	}
 	err := d.Backend.Update(f, reset)
 	if err == nil {
 		d.committed++
+		d.count++
 	}
 	return err
 }
@@ -154,18 +178,33 @@ func (d *vchStopDB) BeginReadWriteTx() (walletdb.ReadWriteTx, error) {
 }
 
 // arm: from now on only n more read-write transactions commit (n < 0: all).
-func (d *vchStopDB) arm(n int) {
+func (d *vchStopDB) arm(n int, rollback bool) {
 	d.mu.Lock()
-	d.committed, d.refused, d.limit = 0, 0, n
+	d.committed, d.refused, d.rolled, d.limit = 0, 0, 0, n
+	d.rollback = rollback
 	d.mu.Unlock()
 }
 
-// disarm lifts the limit and returns (committed, refused) since arm().
-func (d *vchStopDB) disarm() (int, int) {
+// disarm lifts the limit and returns (committed, refused, rolled back) since
+// arm().
+func (d *vchStopDB) disarm() (int, int, int) {
 	d.mu.Lock()
 	defer d.mu.Unlock()
 	d.limit = -1
-	return d.committed, d.refused
+	return d.committed, d.refused, d.rolled
+}
+
+// begin / end count the transactions committed in between.
+func (d *vchStopDB) begin() {
+	d.mu.Lock()
+	d.count = 0
+	d.mu.Unlock()
+}
+
+func (d *vchStopDB) end() int {
+	d.mu.Lock()
+	defer d.mu.Unlock()
+	return d.count
 }
 
 // vchMigrate moves the freshly created channel of lc (CreateTestChannels opens
@@ -629,7 +668,7 @@ func (c *vchCtx) send(to int, m lnwire.Message) { c.q[to] = append(c.q[to], m) }
 // generator how many crash points a call has.
 func (c *vchCtx) txBegin(p int) {
 	if c.db[p] != nil {
-		c.db[p].arm(-1)
+		c.db[p].begin()
 	}
 }
 
@@ -637,7 +676,7 @@ func (c *vchCtx) txEnd(p int, kind string, extra map[string]any) map[string]any 
 	if c.db[p] == nil {
 		return extra
 	}
-	n, _ := c.db[p].disarm()
+	n := c.db[p].end()
 	if extra == nil {
 		extra = map[string]any{}
 	}
@@ -1102,6 +1141,18 @@ func (c *vchCtx) doCut(ka, kb int) {
 // object died inside a state-machine call (its in-memory state is not a
 // reference for anything; -1 = none).
 func (c *vchCtx) restartBoth(op []any, extra map[string]any, dead int) {
+	c.record(op, c.restartCore(extra, dead, -1, 0, false), extra)
+}
+
+// restartCore is the restart itself; it fills extra and returns the result
+// class (ok | reload_failed | sync_failed | sync_error).  armP >= 0: that
+// party's channel DB is armed with (armK, rollback) while it runs
+// ProcessChanSyncMsg (the node dies inside the resync; crash_stop from it is
+// expected and does not abort the case); extra gets call_res / committed /
+// refused / rolled_back.
+func (c *vchCtx) restartCore(extra map[string]any, dead, armP, armK int,
+	rollback bool) string {
+
 	pre := map[string]any{}
 	for p := 0; p < 2; p++ {
 		if p != dead {
@@ -1118,8 +1169,7 @@ func (c *vchCtx) restartBoth(op []any, extra map[string]any, dead int) {
 	defer func() {
 		for p := 0; p < 2; p++ {
 			if c.db[p] != nil {
-				n, _ := c.db[p].disarm()
-				ntxSync[vchNames[p]] = n
+				ntxSync[vchNames[p]] = c.db[p].end()
 			}
 		}
 	}()
@@ -1134,8 +1184,7 @@ func (c *vchCtx) restartBoth(op []any, extra map[string]any, dead int) {
 		if res != "ok" {
 			extra["err_"+vchNames[p]] = "reload:" + res
 			c.abort = "reload_" + vchNames[p] + ":" + res
-			c.record(op, "reload_failed", extra)
-			return
+			return "reload_failed"
 		}
 		c.ch[p] = lc
 	}
@@ -1163,8 +1212,7 @@ func (c *vchCtx) restartBoth(op []any, extra map[string]any, dead int) {
 		if res != "ok" {
 			extra["err_"+vchNames[p]] = "chansyncmsg:" + res
 			c.abort = "chansyncmsg_" + vchNames[p] + ":" + res
-			c.record(op, "sync_failed", extra)
-			return
+			return "sync_failed"
 		}
 		chanSync[vchNames[p]] = []uint64{
 			sync[p].NextLocalCommitHeight,
@@ -1181,17 +1229,31 @@ func (c *vchCtx) restartBoth(op []any, extra map[string]any, dead int) {
 	res := "ok"
 	for p := 0; p < 2; p++ {
 		var msgs []lnwire.Message
+		armed := p == armP && c.db[p] != nil
+		if armed {
+			c.db[p].arm(armK, rollback)
+		}
 		r := vchSafe(func() error {
 			var err error
 			msgs, _, _, err = c.ch[p].ProcessChanSyncMsg(ctxb, sync[1-p])
 			return err
 		})
+		if armed {
+			committed, refused, rolled := c.db[p].disarm()
+			extra["call_res"] = r
+			extra["committed"] = committed
+			extra["refused"] = refused
+			extra["rolled_back"] = rolled
+		}
 		kinds := make([]string, 0, len(msgs))
-		if r != "ok" {
+		switch {
+		case armed && r != "ok" && extra["refused"].(int) > 0:
+			// the node died inside its resync: nothing leaves it
+		case r != "ok":
 			extra["err_"+vchNames[p]] = r
 			c.abort = "sync_error"
 			res = "sync_error"
-		} else {
+		default:
 			for _, m := range msgs {
 				kinds = append(kinds, vchKind(m))
 				if _, ok := m.(*lnwire.CommitSig); ok {
@@ -1202,14 +1264,19 @@ func (c *vchCtx) restartBoth(op []any, extra map[string]any, dead int) {
 		}
 		extra["sync_"+vchNames[p]] = kinds
 	}
-	c.record(op, res, extra)
+	return res
 }
 
 // doCrashIn is a WRITE-LEVEL crash: p's node dies inside one state-machine
-// call (call = "sign" | "revoke" | "deliver"; deliver = the revoke_and_ack at
-// the head of the queue towards p) right after the k-th read-write
-// transaction that call commits on p's channel DB - the (k+1)-th and every
-// later one fails with errVchStop without touching the DB.  Whatever the call
+// call (call = "sign" | "revoke" | "deliver" | "sync"; deliver = the
+// revoke_and_ack at the head of the queue towards p; sync = the
+// ProcessChanSyncMsg of a restart that begins right here: everything in flight
+// is lost, both sides rebuild from disk and exchange channel_reestablish, the
+// peer's ProcessChanSyncMsg runs to completion, p's dies) right after the k-th
+// read-write transaction that call commits on p's channel DB - the (k+1)-th
+// and every later one fails with errVchStop and leaves the DB untouched
+// (refused up front, or - k negative: crash point -k-1 in ROLLBACK mode - run
+// against the real backend and rolled back by it).  Whatever the call
 // returns is thrown away (the message was never handed to the peer), all
 // messages in flight are lost, p's live object is discarded and, as after every
 // disconnect, BOTH sides rebuild their channel from disk and run the
@@ -1220,19 +1287,24 @@ func (c *vchCtx) restartBoth(op []any, extra map[string]any, dead int) {
 //	res   as for cut (ok | reload_failed | sync_failed | sync_error)
 //	extra call_res (class of the interrupted call: ok | crash_stop | ...),
 //	      committed / refused (transactions of the call that committed / were
-//	      refused), reload_before (reload dump of p taken just before the call),
-//	      kind, rev_height (revoke), + everything a cut records
+//	      refused / rolled_back), reload_before (reload dump of p taken just
+//	      before the call), kind, rev_height (revoke), sync1 (call = sync: the
+//	      extra of the interrupted restart) + everything a cut records
 //	      (pre_reload only for the peer).
 func (c *vchCtx) doCrashIn(p int, call string, k int) {
 	lc := c.ch[p]
 	op := []any{"crashin", vchNames[p], call, k}
+	rollback := k < 0
+	if rollback {
+		k = -k - 1
+	}
 	extra := map[string]any{"delivered": [][]any{},
 		"sync_a": []string{}, "sync_b": []string{},
 		"err_a": nil, "err_b": nil}
 	// enabledness (scripts are replayed verbatim; a disabled call is skipped)
 	enabled := c.db[p] != nil
 	switch call {
-	case "sign":
+	case "sign", "sync":
 	case "revoke":
 		enabled = enabled && c.hasLtip(p)
 	case "deliver":
@@ -1242,6 +1314,36 @@ func (c *vchCtx) doCrashIn(p int, call string, k int) {
 	}
 	if !enabled {
 		c.record(op, "no_pending", map[string]any{"mal": 1})
+		return
+	}
+	if call == "sync" {
+		// the interrupted restart; its reload of p is the reference
+		// "before the call"
+		first := map[string]any{"sync_a": []string{}, "sync_b": []string{},
+			"err_a": nil, "err_b": nil}
+		c.q[0], c.q[1] = nil, nil
+		res := c.restartCore(first, -1, p, k, rollback)
+		delete(first, "pre_reload")
+		extra["sync1"] = first
+		if res != "ok" {
+			extra["err_a"], extra["err_b"] = first["err_a"], first["err_b"]
+			c.record(op, res, extra)
+			return
+		}
+		for _, key := range []string{"call_res", "committed", "refused",
+			"rolled_back"} {
+
+			extra[key] = first[key]
+		}
+		extra["reload_before"] = first["reloaded"].(map[string]any)[vchNames[p]]
+		if c.maxTx != nil && first["refused"].(int) == 0 &&
+			first["committed"].(int) > c.maxTx["sync"] {
+
+			c.maxTx["sync"] = first["committed"].(int)
+		}
+		extra["dropped"] = []int{len(c.q[0]), len(c.q[1])}
+		c.q[0], c.q[1] = nil, nil
+		c.restartBoth(op, extra, p)
 		return
 	}
 	var before map[string]any
@@ -1260,7 +1362,7 @@ func (c *vchCtx) doCrashIn(p int, call string, k int) {
 	}
 	extra["reload_before"] = before
 
-	c.db[p].arm(k)
+	c.db[p].arm(k, rollback)
 	var res string
 	switch call {
 	case "sign":
@@ -1279,10 +1381,11 @@ func (c *vchCtx) doCrashIn(p int, call string, k int) {
 		extra["kind"] = vchKind(m)
 		res = c.deliverMsg(p, m)
 	}
-	committed, refused := c.db[p].disarm()
+	committed, refused, rolled := c.db[p].disarm()
 	extra["call_res"] = res
 	extra["committed"] = committed
 	extra["refused"] = refused
+	extra["rolled_back"] = rolled
 	if c.maxTx != nil && refused == 0 {
 		kind := call
 		if call == "deliver" {
@@ -1306,10 +1409,16 @@ func (c *vchCtx) crashPoint(kind string) int {
 	if n < 1 {
 		n = 1
 	}
+	k := c.r.intn(n + 1)
 	if n > 1 && c.r.intn(5) < 3 {
-		return 1 + c.r.intn(n-1)
+		k = 1 + c.r.intn(n-1)
 	}
-	return c.r.intn(n + 1)
+	// half of the crash points hit an OPEN transaction: it is executed
+	// against the real backend and rolled back (op carries -k-1)
+	if c.r.bool() {
+		return -k - 1
+	}
+	return k
 }
 
 // ---------------------------------------------------------------------------
@@ -1469,6 +1578,10 @@ func (c *vchCtx) genCut() {
 	}
 	c.doCut(pick(len(c.q[0])), pick(len(c.q[1])))
 	if c.abort == "" && r.intn(5) == 0 {
+		if c.crashIn && r.intn(3) == 0 {
+			c.doCrashIn(r.intn(2), "sync", c.crashPoint("sync"))
+			return
+		}
 		c.doCut(pick(len(c.q[0])), pick(len(c.q[1])))
 	}
 }
@@ -1583,6 +1696,12 @@ func (c *vchCtx) revokeMaybeCut(p int) {
 		return
 	}
 	if c.cut && c.r.intn(14) == 0 {
+		// (the revocation is lost: p's ProcessChanSyncMsg retransmits it and
+		// signs what it owes - the one resync that writes)
+		if c.crashIn && c.r.bool() {
+			c.doCrashIn(p, "sync", c.crashPoint("sync"))
+			return
+		}
 		c.doCut(0, 0)
 	}
 }
@@ -1923,6 +2042,7 @@ type vchScript struct {
 	ChanType   string  `json:"chan_type"`
 	Ops        [][]any `json:"ops"`
 	ExpectLast string  `json:"expect_last"` // copied into the row
+	Backend    string  `json:"backend"`     // "" | bbolt | sqlite (if linked in)
 	origin     string
 }
 
@@ -2116,6 +2236,14 @@ func TestVerifChan(t *testing.T) {
 				sqlitePct {
 
 				backend = "sqlite"
+			}
+			if sc != nil && sc.Backend != "" {
+				backend = "bbolt"
+				if sc.Backend == "sqlite" && vchSqliteOpen != nil &&
+					backendMode != "bbolt" {
+
+					backend = "sqlite"
+				}
 			}
 			var dbs [2]*vchStopDB
 			for i, lc := range []*LightningChannel{a, b} {
